@@ -20,6 +20,7 @@ def run(prog, tier, extra=None):
     R1 = res.rule("C05.gate", "the longest-chain decision and the golden-ticket density verdict gate what follows", floor=4)
     R2 = res.rule("C05.strictly-longer", "is_new_chain_the_longest_chain accepts only a strictly longer chain with at least the burn fee", floor=2)
     R4 = res.rule("C05.density-anchor", "the golden-ticket density is evaluated at the tip of the candidate chain", floor=1)
+    R5 = res.rule("C05.density-window", "the density helper looks at the candidate and exactly DENOMINATOR - 1 ancestors", floor=1)
     R3 = res.rule("C05.density-constants", "the density rule is computed from MIN_GOLDEN_TICKETS_NUMERATOR/DENOMINATOR", floor=2)
 
     # R1a
@@ -267,6 +268,67 @@ def run(prog, tier, extra=None):
         cm = gate.order_edges(b, chg, lambda a, c: a[0] == "local" and c[0] == "local")
         if cm:
             res.sample({"rule": R3, "comparison": ["%s: %s %s %s" % (b.loc(c["bb"]), show(c["a"]), c["op"], show(c["b"])) for c in cm][:3]})
+    # R5: "two in every window of six": the helper counts the candidate's own ticket plus those of the ancestors it walks over, so the
+    # walk may cover at most DENOMINATOR - 1 ancestors (loop-count algebra: `for _ in a..b` runs b - a times, `while i < K` with i
+    # starting at c and stepping by one runs K - c times). One more ancestor and a ticket just outside the window is counted.
+    from ..linear import Lin as _Lin, Linearizer as _Lz
+    D = prog.const("MIN_GOLDEN_TICKETS_DENOMINATOR")
+    for b in gt:
+        chb = Chaser(b)
+        lzb = _Lz(b, chb, prog)
+        walk_calls = [bb for bb, t in b.calls() if (call_name(t) or "").rsplit("::", 1)[-1] in ("call", "call_mut", "call_once") and "Fn" in (call_name(t) or "")]
+        if not walk_calls:
+            continue
+        h = b.innermost_loop_containing(walk_calls[:1])
+        res.instance(R5)
+        if h is None or D is None:
+            res.add(Finding(R5, "C05.density-window|anchors", "the ancestor walk of the golden-ticket density rule is not a loop around the block lookup (anchor moved?)", b.loc(walk_calls[0])))
+            continue
+        loop = b.natural_loop(h)
+        bound = None
+        for bb in sorted(loop):
+            t = b.term(bb)
+            if t["k"] == "call" and call_name(t) == "std::iter::Iterator::next" and t["args"]:
+                it = chb.origin(t["args"][0])
+                while it[0] in ("ref", "deref", "via"):
+                    it = it[2] if it[0] == "via" else it[1]
+                if it[0] == "agg" and it[1][0] == "adt" and it[1][1].endswith("ops::Range") and len(it[2]) == 2:
+                    a_, b_ = lzb.lin(it[2][0]), lzb.lin(it[2][1])
+                    if a_ is not None and b_ is not None and (b_ - a_).is_const():
+                        bound = int((b_ - a_).c)
+                elif it[0] == "agg" and it[1][0] == "adt" and it[1][1].endswith("ops::RangeInclusive"):
+                    bound = None
+        if bound is None:
+            for c in gate.order_edges(b, chb, lambda a, k: a[0] == "local" and lzb.lin(k) is not None and lzb.lin(k).is_const()):
+                if c["bb"] not in loop or c["op"] not in ("Lt", "Le"):
+                    continue
+                x = c["a"][1]
+                inits, steps_ok = [], True
+                for d in b.defs(x):
+                    if d[0] != "stmt":
+                        steps_ok = False
+                        continue
+                    e = chb.rvalue(d[3], 0)
+                    v = lzb.lin(e)
+                    if v is not None and v.is_const():
+                        inits.append(int(v.c))
+                    else:
+                        y = strip(e)
+                        if y[0] == "field" and y[1][0] == "bin":
+                            y = y[1]
+                        if not (y[0] == "bin" and y[1].startswith("Add") and strip(y[2]) [0] == "local" and strip(y[2])[1] == x and y[3][0] == "const" and y[3][1] == 1):
+                            steps_ok = False
+                if steps_ok and len(inits) == 1:
+                    K = int(lzb.lin(c["b"]).c)
+                    bound = K - inits[0] + (1 if c["op"] == "Le" else 0)
+        if bound is None:
+            res.not_decided.append("C05.density-window: iteration bound of the ancestor walk not recognised in %s" % b.path.rsplit("::", 1)[-1])
+        elif bound != D - 1:
+            res.add(Finding(R5, "C05.density-window|bound", "the density rule walks over up to %d ancestors; with the candidate that is a window of %d blocks, not %d: a ticket just "
+                            "outside the six-block window is counted" % (bound, bound + 1, D), b.loc(h)))
+        else:
+            res.sample({"rule": R5, "loop": b.loc(h), "ancestors": bound, "window": bound + 1})
+
     # fork choice finds the shared ancestor by walking back to the first block flagged in_longest_chain: the flags must follow
     # every wind/unwind step (C03.lockstep, cross-listed), or a branch that once lost the tip can never win it back
     from ._include import include
